@@ -835,6 +835,8 @@ EXCEPTION_PARENTS = {
     'struct.error': 'builtins.Exception',
     'binascii.Error': 'builtins.ValueError',
     'json.JSONDecodeError': 'builtins.ValueError',
+    'decimal.DecimalException': 'builtins.ArithmeticError',
+    'decimal.InvalidOperation': 'decimal.DecimalException',
 }
 
 
